@@ -1,4 +1,5 @@
 """C19 - Date converts between epoch seconds and UTC calendar fields as a bijection (spec/Calendar*.tla)."""
+import concurrent.futures as cf
 import json
 import os
 import random
@@ -30,6 +31,27 @@ META = {
 }
 
 MONTH_RE = re.compile(r'\{"k":"month","y":(\d+),"m":(\d+),')
+
+
+def _models(ctx, jobs):
+    """Run TLC model-checking jobs side by side ((spec, cfg, emit path, timeout, workers)), then do the same bookkeeping as
+    Ctx.model for each: success required, no action left uncovered, state counters."""
+    def one(j):
+        spec, cfg, emit, timeout, workers = j
+        return j, vlib.tlc(spec, cfg, emit_to=emit, timeout=timeout, workers=workers, xmx="6g", coverage=True)
+
+    with cf.ThreadPoolExecutor(len(jobs)) as ex:
+        results = list(ex.map(one, jobs))
+    for (spec, cfg, emit, timeout, workers), r in results:
+        what = "%s/%s" % (spec, cfg)
+        vlib.tlc_expect_ok(r, what)
+        z = vlib.zero_coverage(r)
+        if z:
+            raise vlib.HarnessError("%s: vacuous run, actions never taken: %s" % (what, z))
+        ctx.states += r.distinct
+        ctx.transitions += r.generated
+        ctx.engines.append("%s: %d distinct states, %d transitions, depth %d, %.1fs" % (what, r.distinct, r.generated, r.depth, r.wall))
+        vlib.log(ctx.engines[-1])
 
 
 def _pick_days(ctx, months_path, count):
@@ -82,15 +104,18 @@ def run(ctx):
                 "selected days), one per generated text; evaluations: library calls compared with a TLC-computed value; "
                 "non-trivial = every case (each carries >= 3 comparisons)")
 
-    # 1. every day of years 1..9999 (successor rule vs closed forms), replayed at the times of day of the configuration
+    # 1. the three models side by side: every day of years 1..9999 (successor rule vs closed forms), every second of a
+    #    day (carry rule vs closed form), the text generator (formats read back, every zone offset, fraction digits,
+    #    format-driven reading)
     months = os.path.join(ctx.tmp, "c19-months.cases")
-    ctx.model("CalendarDays", ctx.pick("MC_CalendarDays_quick", "MC_CalendarDays_thorough"), emit_to=months,
-              timeout=ctx.pick(600, 3000), xmx="8g")
-    ctx.replay(rep, months, label="R/CalendarDays", timeout=ctx.pick(900, 3000))
-
-    # 2. every second of a day (carry rule vs closed form), replayed on every second of the selected days
     clock = os.path.join(ctx.tmp, "c19-clock.lines")
-    ctx.model("CalendarClock", "MC_CalendarClock", emit_to=clock, timeout=600, workers=8, xmx="4g")
+    texts = os.path.join(ctx.tmp, "c19-text.cases")
+    to = ctx.pick(900, 3000)
+    _models(ctx, [("CalendarDays", ctx.pick("MC_CalendarDays_quick", "MC_CalendarDays_thorough"), months, to, 8),
+                  ("CalendarClock", "MC_CalendarClock", clock, to, 2),
+                  ("CalendarText", ctx.pick("MC_CalendarText_quick", "MC_CalendarText_thorough"), texts, to, 6)])
+    # 2. R: every day at the times of day of the configuration; every second of the selected days; every text
+    ctx.replay(rep, months, label="R/CalendarDays", timeout=ctx.pick(900, 3000))
     days = _pick_days(ctx, months, ctx.pick(200, 1500))
     os.unlink(months)
     tod = os.path.join(ctx.tmp, "c19-tod.cases")
@@ -107,10 +132,6 @@ def run(ctx):
     ctx.replay(rep, tod, label="R/CalendarClock", timeout=ctx.pick(900, 3000), args=("--batch", "40", "--case-timeout-ms", "120000"))
     os.unlink(tod)
 
-    # 3. generated texts: formats read back, every zone offset, fraction digits
-    texts = os.path.join(ctx.tmp, "c19-text.cases")
-    ctx.model("CalendarText", ctx.pick("MC_CalendarText_quick", "MC_CalendarText_thorough"), emit_to=texts,
-              timeout=ctx.pick(600, 3000), xmx="8g")
     tsamples = []
     with open(texts) as f:
         for ln in f:
@@ -122,7 +143,7 @@ def run(ctx):
     ctx.replay(rep, texts, label="R/CalendarText", timeout=ctx.pick(900, 3000))
     os.unlink(texts)
 
-    # 4. V: recorded executions validated by TLC
+    # 3. V: recorded executions validated by TLC
     files = ctx.record(rec, ctx.pick(12, 48), ctx.pick(5000, 40000), "V/Calendar")
     if files:
         with open(files[0]) as f:
@@ -130,7 +151,9 @@ def run(ctx):
     ctx.validate_traces("Trace_Calendar", "Trace_Calendar", files, label="V/Calendar", timeout=ctx.pick(600, 3000))
     ctx.samples = [x[:260] + (" ..." if len(x) > 260 else "") for x in ctx.samples[:1]] + tsamples
     ctx.assumptions += [
-        "TZ=UTC, LC_ALL=C; only the UTC functions of Date are exercised",
+        "TZ=UTC, LC_ALL=C; only the UTC functions of Date are exercised (Date(text, format) builds a local time, which is UTC here)",
+        "Date(text, format): the spec vouches for the result only when the whole text matches the whole format with 1..9-digit "
+        "numbers and valid fields; every other text (all prefixes of matching texts are generated) may give any value in bounds",
         "instants are (day, second, microsecond) triples converted to double by the harness; parsed instants are compared with "
         "100 us tolerance (double resolution in year 9999 is 30 us); sub-millisecond instants within 150 us of a rounding "
         "boundary are not generated",
